@@ -202,6 +202,13 @@ class Ctx:
                 return None
             m = self.solver.model()
             v = {"label": label, "witness": self.model_inputs(m)}
+            try:
+                from . import env as _env
+                tab = _env.oracle_table(m)
+                if tab:
+                    v["oracle"] = tab
+            except Exception:
+                pass
             if extra:
                 v["extra"] = extra(m) if callable(extra) else extra
             self.violations.append(v)
